@@ -441,6 +441,13 @@ def run_stream(ctx, n_cases):
         ctx.case((tuple(names), hashlib.sha1(repr((case["left"], case["right"], case["disp"])).encode()).hexdigest()[:12])
                  if nontrivial else None)
         ctx.count("pipeline_len_%d" % len(names))
+        mc = case["steps"][0][1]
+        ctx.count("pipeline_in_%s_w%d_subpix%d" % (mc["matching_cost_method"], mc["window_size"], mc["subpix"]))
+        ctx.count("pipeline_in_masks_%d%d" % (case["mask_left"] is not None, case["mask_right"] is not None))
+        ctx.count("pipeline_in_right_interval_" + ("given" if case["right_disp_given"] else "derived"))
+        for n_, c_ in case["steps"]:
+            if n_.split(".")[0] == "validation":
+                ctx.count("pipeline_in_validation_" + str(c_.get("interpolated_disparity", "no_interpolation")))
         if agreed:
             ctx.count("pipeline_cases_agreeing_to_the_end")
         ctx.sample({"stream": "pipeline", "steps": names, "shape": [case["rows"], case["cols"]], "interval": case["disp"],
